@@ -58,6 +58,9 @@ def check_case(d, texts):
         unfolded, _ = gen_desc.meaning(d, fold=False)
     except gen_desc.Rejected:
         return out      # rejected descriptions are C01's business
+    if real[0] == "exception":
+        out.append(("C05:accepted-description-fails-in-the-inlining-pass", "%s: %s for %r" % (real[1], real[2], texts)))
+        return out
     if real[0] != "ok":
         return out
     compiled = real[2]
